@@ -95,7 +95,16 @@ func (t *Trie) BuildFailureLinks() {
 // Match returns true if the text contains any of the patterns in the trie.
 func (t *Trie) Match(text string) bool {
 	node := &t.root
-	for _, v := range text {
+	for i := 0; i < len(text); {
+		v, size := decodeRune(text, i)
+		i += size
+		if v == utf8.RuneError && size == 1 {
+			// a byte that is not valid UTF-8 cannot be part of any pattern; it must
+			// not be confused with a real U+FFFD (three bytes) in a pattern
+			node = &t.root
+			continue
+		}
+
 		idx := t.index(node.children, v)
 		for node != &t.root && idx < 0 {
 			node = node.fail
@@ -337,6 +346,12 @@ func (t *Trie) find(text string, scopes *[]scope) {
 	for i := 0; i < len(text); {
 		r, size = decodeRune(text, i)
 		i += size
+		if r == utf8.RuneError && size == 1 {
+			// invalid byte: matches nothing (see Match); continuing with U+FFFD
+			// would report a 3-byte pattern for a 1-byte text and slice out of range
+			node = &t.root
+			continue
+		}
 
 		idx := t.index(node.children, r)
 		for node != &t.root && idx < 0 {
